@@ -1,5 +1,7 @@
 //! anydb-mc — model-checking engines for the anydb properties (see /verif/DESIGN.md).
 
+mod chess;
+mod chessx;
 mod codecx;
 mod crashx;
 mod eagerx;
@@ -47,6 +49,13 @@ fn main() {
             usage();
         }
         match args[1].as_str() {
+            p @ ("C09" | "C11") => {
+                let kf = report::KnownFindings::load();
+                let mut run = report::Run::new(p, tier, "chessx");
+                chessx::run_jobs(&mut run, &kf, p, chessx::plan(p, tier), if tier == "quick" { 50 } else { 1800 }, p);
+                run.cov("rule", serde_json::json!("stateless depth-first exploration of all schedules of each small multi-thread program with at most the stated number of pre-emptions, on the real code under a controlling scheduler; an execution is one complete schedule; distinct = distinct (program, thread observations, deadlock) outcomes"));
+                run.finish()
+            }
             "C05" => {
                 let kf = report::KnownFindings::load();
                 let mut run = report::Run::new("C05", tier, "crashx");
@@ -59,7 +68,11 @@ fn main() {
                 let mut run = report::Run::new(p, tier, "rawx");
                 rawx_run::add(&mut run, &kf, p, tier, if tier == "quick" { 25 } else { 1000 });
                 if p == "C12" {
-                    rawx_run::add_crash(&mut run, &kf, "C12", tier, if tier == "quick" { 25 } else { 800 });
+                    rawx_run::add_crash(&mut run, &kf, "C12", tier, if tier == "quick" { 15 } else { 800 });
+                    chessx::run_jobs(&mut run, &kf, "C12", chessx::plan("C12", tier), if tier == "quick" { 15 } else { 600 }, "C12");
+                }
+                if p == "C10" {
+                    chessx::run_jobs(&mut run, &kf, "C10", chessx::plan("C10", tier), if tier == "quick" { 30 } else { 1200 }, "C10");
                 }
                 run.cov("rule", serde_json::json!(rawx_run::RULE));
                 run.finish()
